@@ -78,3 +78,8 @@ mod tests {
     static MEMORY_ADDR: std::sync::LazyLock<Multiaddr> =
         std::sync::LazyLock::new(|| Multiaddr::empty().with(Protocol::Memory(1000)));
 }
+
+#[cfg(kani)]
+pub(crate) mod verif {
+    include!(concat!(env!("LIBP2P_VERIF"), "/hooks/swarm_behaviour_listen_addresses.rs"));
+}
